@@ -315,6 +315,8 @@ def run_seq(case):
                 if not result:
                     return {"labels": labs, "nontrivial": True, "violation": {"kind": "seq:unexpected-failure", "detail": f"{desc}: call failed without veto"}}
                 sel = int(move.displaced_labels)
+                if sel < 0 or sel not in elig:
+                    return {"labels": labs, "nontrivial": True, "violation": {"kind": "seq:ineligible-label-selected", "detail": f"{desc}: the move displaced the particle with label {sel}; eligible (non-negative) labels are {elig} (harness labelling {model})"}}
                 if pre is not None and sel != pre:
                     return {"labels": labs, "nontrivial": True, "violation": {"kind": "seq:preselection-ignored", "detail": f"{desc}: pre-selected {pre}, displaced {sel}"}}
                 rows = [int(i) for i in np.flatnonzero(arr == sel)]
